@@ -4,8 +4,25 @@ import (
 	"encoding/json"
 	"fmt"
 	"os"
+	"runtime/debug"
+	"strings"
 	"time"
 )
+
+// trimStack keeps the frames of the harness and of the repository under test.
+func trimStack(b []byte) string {
+	var out []string
+	lines := strings.Split(string(b), "\n")
+	for i := 0; i+1 < len(lines); i++ {
+		if strings.Contains(lines[i+1], "/verif/sim/") || strings.Contains(lines[i+1], "/repo/") {
+			out = append(out, strings.TrimSpace(lines[i])+" "+strings.TrimSpace(lines[i+1]))
+		}
+		if len(out) >= 10 {
+			break
+		}
+	}
+	return strings.Join(out, "\n")
+}
 
 // Step is one recorded action of a schedule. Schedules are explicit data: a
 // replay executes exactly these steps and never consults the PRNG.
@@ -117,7 +134,7 @@ func execStep(p Profile, w *World, st *Step, idx int) (v *Violation, herr error)
 				herr = pe
 				return
 			}
-			herr = fmt.Errorf("harness panic at step %d (%s/%s): %v", idx, st.K, st.Op, x)
+			herr = fmt.Errorf("harness panic at step %d (%s/%s): %v\n%s", idx, st.K, st.Op, x, trimStack(debug.Stack()))
 		}
 	}()
 	v = p.Exec(w, st)
